@@ -60,7 +60,8 @@ func (a vhclAttacher) Attach() (File, error) { return a.f() }
 // send() writes header, body and payload with separate Write calls.
 type vhclVerConn struct {
 	net.Conn
-	v      int // < 0: leave alone
+	v      int    // < 0: leave alone
+	grant  uint32 // != 0: the msize the server is asked for (and so announces) instead of the client's
 	mu     sync.Mutex
 	writes int
 }
@@ -70,9 +71,14 @@ func (c *vhclVerConn) Write(b []byte) (int, error) {
 	c.writes++
 	n := c.writes
 	c.mu.Unlock()
-	if n == 2 && c.v >= 0 && len(b) > 6 && b[len(b)-1] == '0'+byte(highestSupportedVersion) {
+	if n == 2 && len(b) > 6 && (c.v >= 0 || c.grant != 0) {
 		nb := append([]byte(nil), b...)
-		nb[len(nb)-1] = '0' + byte(c.v)
+		if c.v >= 0 && b[len(b)-1] == '0'+byte(highestSupportedVersion) {
+			nb[len(nb)-1] = '0' + byte(c.v)
+		}
+		if c.grant != 0 {
+			nb[0], nb[1], nb[2], nb[3] = byte(c.grant), byte(c.grant>>8), byte(c.grant>>16), byte(c.grant>>24)
+		}
 		return c.Conn.Write(nb)
 	}
 	return c.Conn.Write(b)
@@ -87,6 +93,11 @@ type vhclPairT struct {
 
 // vhclPair starts a real Server on one end of a pipe and a real Client on the other.
 func vhclPair(att Attacher, msize uint32, version int) (*vhclPairT, error) {
+	return vhclPairGrant(att, msize, 0, version)
+}
+
+// vhclPairGrant: the client asks for msize, the server is made to announce grant (0: whatever it does by itself).
+func vhclPairGrant(att Attacher, msize uint32, grant uint32, version int) (*vhclPairT, error) {
 	cc, sc := net.Pipe()
 	srv := NewServer(att)
 	p := &vhclPairT{cconn: cc, sconn: sc, srvDone: make(chan struct{})}
@@ -95,7 +106,7 @@ func vhclPair(att Attacher, msize uint32, version int) (*vhclPairT, error) {
 	if msize != 0 {
 		opts = append(opts, WithMessageSize(msize))
 	}
-	c, err := NewClient(&vhclVerConn{Conn: cc, v: version}, opts...)
+	c, err := NewClient(&vhclVerConn{Conn: cc, v: version, grant: grant}, opts...)
 	if err != nil {
 		cc.Close()
 		<-p.srvDone
